@@ -34,30 +34,70 @@ fn now_unix() -> i64 {
     std::time::SystemTime::now().duration_since(std::time::UNIX_EPOCH).map(|d| d.as_secs() as i64).unwrap_or(0)
 }
 
-pub fn build_boxed(case: &RespCase) -> tiny_http::ResponseBox {
-    let body = case.body();
-    let ctor_headers: Vec<Header> = case.headers.iter().filter(|h| h.via == Via::Ctor).map(|h| hdr(&h.name, &h.value)).collect();
-    let mut resp: tiny_http::ResponseBox = match case.ctor {
-        Ctor::New => Response::new(
-            StatusCode(case.status),
-            ctor_headers,
-            PieceReader { data: if case.with_data { vec![] } else { body.clone() }, pos: 0, pieces: case.pieces.clone(), idx: 0 },
-            if case.declared { Some(case.body_len) } else { None },
-            None,
-        )
-        .boxed(),
-        Ctor::FromString => Response::from_string(body_text(case.body_seed, case.body_len, case.utf8)).with_status_code(case.status).boxed(),
-        Ctor::FromData => Response::from_data(vcore::resp::body_bytes(case.body_seed, case.body_len)).with_status_code(case.status).boxed(),
-        // (the only Clone impl: Response<io::Empty>; a clone must carry the same policy state)
-        Ctor::Empty => {
-            let r = Response::empty(case.status);
-            if case.body_seed % 2 == 0 {
-                r.clone().boxed()
-            } else {
-                r.boxed()
+/// The typed part of the builder chain (before `boxed()`), as far as the case's plan puts calls there.
+fn typed_part<R: std::io::Read + Send + 'static>(mut r: Response<R>, case: &RespCase) -> tiny_http::ResponseBox {
+    let p = case.plan;
+    if p & 16 != 0 && p & 32 == 0 {
+        r = r.with_status_code(case.status);
+    }
+    if p & 1 != 0 {
+        for h in case.headers.iter().filter(|h| h.via != Via::Ctor) {
+            match h.via {
+                Via::With => r = r.with_header(hdr(&h.name, &h.value)),
+                _ => r.add_header(hdr(&h.name, &h.value)),
             }
         }
-        Ctor::NewEmpty => Response::new_empty(StatusCode(case.status)).boxed(),
+    }
+    if (p >> 2) & 3 == 1 {
+        if let Some(t) = case.threshold {
+            r = r.with_chunked_threshold(t);
+        }
+    }
+    let b = r.boxed();
+    if p & 2 != 0 {
+        b.boxed()
+    } else {
+        b
+    }
+}
+
+pub fn build_boxed(case: &RespCase) -> tiny_http::ResponseBox {
+    let body = case.body();
+    let p = case.plan;
+    let ctor_headers: Vec<Header> = case.headers.iter().filter(|h| h.via == Via::Ctor).map(|h| hdr(&h.name, &h.value)).collect();
+    // with bit4 the constructor gets another status, replaced later through with_status_code
+    let st0 = if p & 16 != 0 {
+        if case.status == 200 {
+            404
+        } else {
+            200
+        }
+    } else {
+        case.status
+    };
+    let mut resp: tiny_http::ResponseBox = match case.ctor {
+        Ctor::New => typed_part(
+            Response::new(
+                StatusCode(st0),
+                ctor_headers,
+                PieceReader { data: if case.with_data { vec![] } else { body.clone() }, pos: 0, pieces: case.pieces.clone(), idx: 0 },
+                if case.declared { Some(case.body_len) } else { None },
+                None,
+            ),
+            case,
+        ),
+        Ctor::FromString => typed_part(Response::from_string(body_text(case.body_seed, case.body_len, case.utf8)).with_status_code(st0), case),
+        Ctor::FromData => typed_part(Response::from_data(vcore::resp::body_bytes(case.body_seed, case.body_len)).with_status_code(st0), case),
+        // (the only Clone impl: Response<io::Empty>; a clone must carry the same policy state)
+        Ctor::Empty => {
+            let r = Response::empty(st0);
+            if case.body_seed % 2 == 0 {
+                typed_part(r.clone(), case)
+            } else {
+                typed_part(r, case)
+            }
+        }
+        Ctor::NewEmpty => typed_part(Response::new_empty(StatusCode(st0)), case),
         Ctor::FromFile => {
             let dir = format!("{}/target/tmp", vcore::report::verif_root());
             let _ = std::fs::create_dir_all(&dir);
@@ -65,13 +105,23 @@ pub fn build_boxed(case: &RespCase) -> tiny_http::ResponseBox {
             std::fs::write(&path, vcore::resp::body_bytes(case.body_seed, case.body_len)).expect("write temp file");
             let f = std::fs::File::open(&path).expect("open temp file");
             let _ = std::fs::remove_file(&path);
-            Response::from_file(f).with_status_code(case.status).boxed()
+            typed_part(Response::from_file(f).with_status_code(st0), case)
         }
     };
-    for h in case.headers.iter().filter(|h| h.via != Via::Ctor) {
-        match h.via {
-            Via::With => resp = resp.with_header(hdr(&h.name, &h.value)),
-            _ => resp.add_header(hdr(&h.name, &h.value)),
+    if p & 16 != 0 && p & 32 != 0 {
+        resp = resp.with_status_code(case.status);
+    }
+    if (p >> 2) & 3 == 2 {
+        if let Some(t) = case.threshold {
+            resp = resp.with_chunked_threshold(t);
+        }
+    }
+    if p & 1 == 0 {
+        for h in case.headers.iter().filter(|h| h.via != Via::Ctor) {
+            match h.via {
+                Via::With => resp = resp.with_header(hdr(&h.name, &h.value)),
+                _ => resp.add_header(hdr(&h.name, &h.value)),
+            }
         }
     }
     if case.with_data {
@@ -82,8 +132,10 @@ pub fn build_boxed(case: &RespCase) -> tiny_http::ResponseBox {
             )
             .boxed();
     }
-    if let Some(t) = case.threshold {
-        resp = resp.with_chunked_threshold(t);
+    if !matches!((p >> 2) & 3, 1 | 2) {
+        if let Some(t) = case.threshold {
+            resp = resp.with_chunked_threshold(t);
+        }
     }
     resp
 }
